@@ -34,11 +34,18 @@ def main(argv):
     except ImportError:
         traceback.print_exc()
         return 2
+    if mode == "batch":
+        return runner.batch_main(pid, mod, argv[2], argv[3])
     if mode == "replay":
         if len(argv) < 3:
             return usage()
         with open(argv[2]) as f:
             case = json.load(f)
+        env = case.get("env") or {}
+        if env and any(os.environ.get(k) != v for k, v in env.items()):
+            rc, out = runner.replay_in_env(pid, os.path.abspath(argv[2]), env)     # the case needs that interpreter mode
+            sys.stdout.write(out)
+            return rc
         fn = mod.CHECKS[case["check"]]
         part = runner.Part(pid)
         part.check(case["check"], fn, case["input"])
